@@ -1,7 +1,7 @@
 (* Props/C17.v — Index arithmetic, mode-selection preprocessing (theorems about the code as
    regenerated from /repo/pyttb/pyttb_utils.py at run time).  Only statements, `exact`, Print Assumptions. *)
 From Coq Require Import List ZArith Arith Bool Permutation Sorted.
-From PV Require Import Base.Index Np.NpZ Proofs.NpZProofs Gen.GenUtils Proofs.UtilsProofs Proofs.RowsProofs Proofs.KhatriRao Model.Repr.
+From PV Require Import Base.Index Np.NpZ Np.NpZ2 Proofs.NpZProofs Gen.GenUtils Gen.GenKernels Proofs.UtilsProofs Proofs.RowsProofs Gen.GenUtils2 Proofs.KhatriRao Proofs.GenKernelsProofs Proofs.GenKhatriRao Proofs.GenWrapDims Proofs.C03Rows Proofs.GenRows Model.Repr.
 Import ListNotations.
 
 (* mutually inverse bijections between subscripts of a shape and 0..size-1 *)
@@ -148,6 +148,132 @@ Print Assumptions C17_khatrirao_reverse.
 Example C17_khatrirao_example :
   khatrirao Z Z.mul false [[[1; 2]; [3; 4]]; [[5; 6]; [7; 8]; [9; 10]]]
   = Some [[5; 12]; [7; 16]; [9; 20]; [15; 24]; [21; 32]; [27; 40]].
+Proof. reflexivity. Qed.
+
+(* ---- kernels regenerated into Gen/GenKernels.v ---- *)
+
+(* tensor.py::min_split (the split index of tensor.mttkrps): for N >= 2 modes of positive sizes the index is in
+   [0, N-2], so neither partial Khatri-Rao product is empty (DESIGN §C02: C02_min_split_range) *)
+Theorem C17_min_split_range : forall shape : vec,
+  (2 <= length shape)%nat -> (forall d, In d shape -> 0 < d) ->
+  exists k, min_split shape = Ok (Z.of_nat k) /\ (k + 2 <= length shape)%nat.
+Proof. exact C02_min_split_range. Qed.
+Print Assumptions C17_min_split_range.
+
+(* the greedy rule it implements: modes 1..k joined the left product because prod shape[0:j] < prod shape[j+1:],
+   and mode k+1 did not: prod shape[k+2:] <= prod shape[0:k+1] *)
+Theorem C17_min_split_greedy : forall shape : vec,
+  (2 <= length shape)%nat -> (forall d, In d shape -> 0 < d) ->
+  exists k, min_split shape = Ok (Z.of_nat k) /\
+    (forall j, (1 <= j <= k)%nat -> zprod (firstn j shape) < zprod (skipn (S j) shape)) /\
+    zprod (skipn (k + 2) shape) <= zprod (firstn (k + 1) shape).
+Proof. exact C02_min_split_greedy. Qed.
+Print Assumptions C17_min_split_greedy.
+
+Example C17_min_split_example : min_split [2; 3; 4; 5] = Ok 1 /\ min_split [5; 1; 1; 9] = Ok 2 /\ min_split [] = Err.
+Proof. repeat split; reflexivity. Qed.
+
+(* khatrirao.py::khatrirao as regenerated into Gen/GenKernels.v: on non-empty matrices it IS the model above
+   (a product of matrices with zero columns is rejected: numpy cannot infer the -1 of the reshape) *)
+Theorem C17_khatrirao_bridge : forall (Ms : list mat) (reverse : bool), (forall B, In B Ms -> B <> []) ->
+  GenKernels.khatrirao Ms reverse =
+  match (if reverse then rev Ms else Ms) with
+  | [] => Err
+  | A :: _ => if np_ncols A =? 0 then Err
+              else match KhatriRao.khatrirao Z Z.mul reverse Ms with Some K => Ok K | None => Err end
+  end.
+Proof. exact khatrirao_bridge. Qed.
+Print Assumptions C17_khatrirao_bridge.
+
+(* column-wise Kronecker product, first argument slowest — about the generated function *)
+Theorem C17_khatrirao_gen : forall (A : mat) rest p R ns is b r,
+  wfm Z A p R -> length ns = length rest -> length is = length rest ->
+  (forall k, (k < length rest)%nat -> wfm Z (nth k rest []) (nth k ns 0%nat) R /\ (nth k is 0 < nth k ns 0)%nat) ->
+  (b < p)%nat -> (r < R)%nat ->
+  exists K, GenKernels.khatrirao (A :: rest) false = Ok K /\
+    wfm Z K (size (p :: ns)) R /\
+    mget 0 K (sub2ind (rev (p :: ns)) (rev (b :: is))) r = kr_prod Z 0 1 Z.mul rest is r * mget 0 A b r.
+Proof. exact khatrirao_gen_spec. Qed.
+Print Assumptions C17_khatrirao_gen.
+
+Theorem C17_khatrirao_gen_reverse : forall Ms : list mat, (forall B, In B Ms -> B <> []) ->
+  GenKernels.khatrirao Ms true = GenKernels.khatrirao (rev Ms) false.
+Proof. exact khatrirao_gen_reverse. Qed.
+Print Assumptions C17_khatrirao_gen_reverse.
+
+Theorem C17_khatrirao_gen_rejects : forall (A : mat) rest (B : mat) row,
+  (forall M, In M (A :: rest) -> M <> []) -> In B (A :: rest) -> In row B -> zlen row <> np_ncols A ->
+  GenKernels.khatrirao (A :: rest) false = Err.
+Proof. exact khatrirao_gen_rejects. Qed.
+Print Assumptions C17_khatrirao_gen_rejects.
+
+Example C17_khatrirao_gen_example :
+  GenKernels.khatrirao [[[1; 2]; [3; 4]]; [[5; 6]; [7; 8]; [9; 10]]] false
+  = Ok [[5; 12]; [7; 16]; [9; 20]; [15; 24]; [21; 32]; [27; 40]].
+Proof. reflexivity. Qed.
+
+(* ---- pyttb_utils.py::gather_wrap_dims as regenerated into Gen/GenUtils2.v: every admissible request
+   (rows and/or columns given as duplicate-free in-range mode lists; both given = an ordered partition) yields
+   (rdims, cdims) whose concatenation is a permutation of 0..ndims-1, in the documented convention ---- *)
+Theorem C17_gather_wrap_dims : forall N rd cd cy, request_okZ N rd cd cy ->
+  exists r c, gather_wrap_dims N rd cd cy = Ok (r, c) /\ Permutation (r ++ c) (np_arange 0 N) /\
+    (forall r0 c0, rd = Some r0 -> cd = Some c0 -> r = r0 /\ c = c0) /\
+    (forall c0, rd = None -> cd = Some c0 -> c = c0 /\ r = complement N c0) /\
+    (forall r0, rd = Some r0 -> cd = None -> cy = None \/ length r0 <> 1%nat -> r = r0 /\ c = complement N r0) /\
+    (forall m, rd = Some [m] -> cd = None -> cy = Some CycT -> c = [m] /\ r = complement N [m]) /\
+    (forall m, rd = Some [m] -> cd = None -> cy = Some CycFC -> r = [m] /\ c = np_arange (m + 1) N ++ np_arange 0 m) /\
+    (forall m, rd = Some [m] -> cd = None -> cy = Some CycBC ->
+       r = [m] /\ c = np_arange_down (m - 1) (-1) ++ np_arange_down (N - 1) m).
+Proof. exact gather_wrap_dims_gen. Qed.
+Print Assumptions C17_gather_wrap_dims.
+
+Theorem C17_gather_wrap_dims_rejects : forall N cy m,
+  gather_wrap_dims N None None cy = Err /\ gather_wrap_dims N (Some [m]) None (Some CycOther) = Err.
+Proof. intros N cy m. exact (conj (gwd_none N cy) (gwd_other N m)). Qed.
+Print Assumptions C17_gather_wrap_dims_rejects.
+
+Example C17_gather_wrap_dims_example :
+  gather_wrap_dims 3 (Some [1]) None (Some CycBC) = Ok ([1], [0; 2]) /\
+  gather_wrap_dims 4 (Some [1]) None (Some CycFC) = Ok ([1], [2; 3; 0]) /\
+  gather_wrap_dims 4 (Some [2]) None (Some CycT) = Ok ([0; 1; 3], [2]) /\
+  gather_wrap_dims 4 None (Some [3; 0]) None = Ok ([1; 2], [3; 0]).
+Proof. repeat split; reflexivity. Qed.
+
+(* ---- row-set algebra on duplicate-free row lists (the subscript lists of well-formed sparse tensors), about the
+   generated helpers: exact index contracts (whose order, indices into which list) ---- *)
+
+(* tt_intersect_rows A B = positions IN A of the rows of B that occur in A, in the order of B (Proofs/C03Rows.v) *)
+Theorem C17_intersect_rows : forall A B : mat, NoDup A -> NoDup B -> okw A -> okw B ->
+  tt_intersect_rows A B = Ok (map (loc A) (filter (inrows A) B)).
+Proof. exact tt_intersect_rows_nodup. Qed.
+Print Assumptions C17_intersect_rows.
+
+(* tt_setdiff_rows A B = ascending positions in A of the rows of A that do not occur in B *)
+Theorem C17_setdiff_rows : forall A B : mat, NoDup A -> NoDup B -> okw A -> okw B ->
+  tt_setdiff_rows A B =
+  Ok (map Z.of_nat (filter (fun k => negb (existsb (row_eqb (nth k A [])) B)) (seq 0 (length A)))).
+Proof. exact setdiff_rows_positions. Qed.
+Print Assumptions C17_setdiff_rows.
+
+(* tt_union_rows A B (Gen/GenUtils2.v) = rows of B not in A, in B's order, followed by the rows of A — for B in
+   lexicographic row order (what np.where(...).transpose() delivers to the only in-repo caller); for an unsorted B the
+   code picks wrong rows: known finding C17-UNION, replayed on pyttb by tools/props/c17.py *)
+Theorem C17_union_rows_sortedB : forall A B : mat,
+  NoDup A -> okw A -> okw B -> Sorted row_lt B ->
+  (forall r q, In r A -> In q B -> length r = length q) ->
+  tt_union_rows A B = Ok (filter (fun r => negb (inrows A r)) B ++ A).
+Proof. exact tt_union_rows_sortedB. Qed.
+Print Assumptions C17_union_rows_sortedB.
+
+Theorem C17_union_rows_members : forall A B : mat,
+  NoDup A -> okw A -> okw B -> Sorted row_lt B ->
+  (forall r q, In r A -> In q B -> length r = length q) ->
+  exists U, tt_union_rows A B = Ok U /\ (forall r, In r U <-> In r A \/ In r B) /\ (NoDup B -> NoDup U).
+Proof. exact tt_union_rows_members. Qed.
+Print Assumptions C17_union_rows_members.
+
+Example C17_union_rows_example :
+  tt_union_rows [[1; 2]; [3; 4]] [[0; 0]; [1; 2]; [3; 4]; [5; 5]] = Ok [[0; 0]; [5; 5]; [1; 2]; [3; 4]].
 Proof. reflexivity. Qed.
 
 (* non-vacuity: a concrete request meets the hypotheses *)
